@@ -2,6 +2,7 @@ package main
 
 import (
 	"fmt"
+	"runtime"
 	"sort"
 	"strings"
 
@@ -271,6 +272,56 @@ func runC08(ctx *Ctx, idx int) {
 		return
 	}
 
+	// ---- long lists, a violation at EVERY position in turn: whatever the
+	// order check does with a long list (blocks, shards, strides), every
+	// neighbouring pair has to be compared. A rejected build costs one pass over
+	// the list, so n builds of n keys are affordable.
+	if idx < 10 {
+		n := []int{2047, 2048, 2049, 3000, 4096, 4097, 5000, 6144, 2048 + r.Intn(4000), 2048 + r.Intn(4000)}[idx]
+		var keys []string
+		for len(keys) < n {
+			keys = sortUniq(append(keys, genUniform(r, 9000)...))
+		}
+		keys = keys[:n]
+		ctx.Eval()
+		ctx.Nontrivial(hashStr(keys[:50]...) + uint64(n))
+		o := opts[idx%16]
+		buf := append([]string{}, keys...)
+		accepted := 0
+		for i := 0; i+1 < n && accepted < 3; i++ {
+			if i&255 == 0 {
+				ctx.Beat()
+			}
+			how := "swap"
+			if i%2 == 0 {
+				buf[i], buf[i+1] = buf[i+1], buf[i]
+			} else {
+				how = "duplicate"
+				buf[i+1] = buf[i]
+			}
+			st, err, pv, stack := buildTrie(nil, buf, nil, o.Opt())
+			ex := map[string]interface{}{"injection": fmt.Sprintf("%s@%d of %d keys", how, i, n), "gomaxprocs": runtime.GOMAXPROCS(0)}
+			if pv != nil {
+				ex["panic"], ex["stack"] = fmt.Sprint(pv), stack
+				c08Viol(ctx, "invalid-panic", o, buf[max(0, i-2):min(n, i+4)], ex)
+				accepted++
+			} else if err == nil {
+				c08Viol(ctx, "invalid-accepted", o, buf[max(0, i-2):min(n, i+4)], ex)
+				accepted++
+			} else if errors.Cause(err) != trie.ErrKeyOutOfOrder {
+				ex["error"] = err.Error()
+				c08Viol(ctx, "wrong-error", o, buf[max(0, i-2):min(n, i+4)], ex)
+				accepted++
+			} else if st != nil {
+				c08Viol(ctx, "error-with-trie", o, buf[max(0, i-2):min(n, i+4)], ex)
+			}
+			buf[i], buf[i+1] = keys[i], keys[i+1]
+		}
+		ctx.Count("invalid:long_lists_every_position", 1)
+		ctx.Count("invalid:builds", int64(n-1))
+		return
+	}
+
 	// ---- order violations injected into a valid list
 	ks := genKeySet(r, 2)
 	if idx%5 == 0 {
@@ -484,7 +535,7 @@ func init() {
 			}
 			return 1000
 		},
-		Gates: shapeGates("invalid:duplicate", "invalid:swap", "invalid:prefix-after", "invalid:move-to-front", "invalid:reverse", "family:signed-trap",
+		Gates: shapeGates("invalid:long_lists_every_position", "invalid:builds_from_an_edited_accepted_slice", "invalid:duplicate", "invalid:swap", "invalid:prefix-after", "invalid:move-to-front", "invalid:reverse", "family:signed-trap",
 			"invalid:rejected_with_ErrKeyOutOfOrder", "valid:accepted", "sweep:accepted", "sweep:rejected", "sweep:accepted_beyond_documented_length", "sweep:accepted_run_ge_65536", "sweep:accepted_run_ge_256", "sweep:invalid_builds"),
 		Assumptions: []string{"the documented key-length limit is 16 KiB; beyond it either outcome (error, or a working trie) is accepted", "reference model as in C01"},
 	})
